@@ -5,6 +5,7 @@
 #[path = "../../zv/src/cfg.rs"]
 mod cfg;
 mod c20;
+mod c20t;
 mod c19;
 mod c18;
 mod c01r;
@@ -31,6 +32,7 @@ fn main() {
     }
     let report = match vnet::catch(|| match name {
         "c20" => c20::run(&cfg),
+        "c20t" => c20t::run(&cfg),
         "c19" => c19::run(&cfg),
         "c18" => c18::run(&cfg),
         "c01" => c01r::run(&cfg),
